@@ -251,6 +251,28 @@ def cwatchOp (args : List String) : String :=
     | _, _ => "bad-op"
   | _, _, _ => "bad-op"
 
+/-- `cwrite`: the call has `stored=` (a code, or "eof" for the clean end, or "none"); the context
+    (kind `ctx=`) ends; `Send`. Answer: the code `Send` reports and the code a later `Receive`
+    reports (the latter only for a stored error: how the clean end is remembered differs between
+    the protocols and is not part of this op). -/
+def cwriteOp (args : List String) : String :=
+  match kv args "stored", kv args "ctx" with
+  | some st, some ck =>
+    let k : CtxKind := if ck == "deadline" then .deadline else .canceled
+    let stored : Option (Option GoError) :=
+      if st == "none" then some none
+      else if st == "eof" then some (some (.coded codeUnknown .eof))
+      else st.toNat?.map fun c => some (.coded c .opaque)
+    match stored with
+    | some sto =>
+      let (w, after) := duplexWriteDone sto k
+      let send := wrapIfUncoded (envelopeWritePrefixError w)
+      match after with
+      | some a => if st == "eof" then s!"send={send.codeOf}" else s!"send={send.codeOf} stored={a.codeOf}"
+      | none => "bad-op"
+    | none => "bad-op"
+  | _, _ => "bad-op"
+
 def poolTraceOp (toks : List String) : String :=
   let evs : Option (List PoolEv) := toks.mapM fun t =>
     if t.startsWith "g" then ((t.drop 1).toString.toNat?).map PoolEv.get
@@ -362,6 +384,7 @@ def step (line : String) : String :=
   | "dtrace" :: toks => dtraceOp toks
   | "cflow" :: args => cflowOp args
   | "cwatch" :: args => cwatchOp args
+  | "cwrite" :: args => cwriteOp args
   | "gen" :: args => genOp args
   | "icpt" :: args => icptOp args
   | "recover" :: args => recoverOp args
